@@ -60,16 +60,18 @@ fn dom_str(d: &Dom) -> String {
     format!("{} [{}, {}]", if d.integral { "integer" } else { "real" }, d.lo.as_ref().map(|x| q_to_f64(x).to_string()).unwrap_or("-inf".into()), d.hi.as_ref().map(|x| q_to_f64(x).to_string()).unwrap_or("+inf".into()))
 }
 
+const BIG: [(usize, usize); 5] = [(12, 10), (60, 60), (120, 100), (200, 150), (300, 200)];
+
 impl Property for C18 {
     fn id(&self) -> &'static str {
         "C18"
     }
     fn rule(&self) -> &'static str {
-        "case = linear instance (normalised linear functions, constant-only and absent constraint functions; continuous/integer/binary variables; bounds absent, finite, half-infinite, (-inf,inf), negative, fractional; binary with bound absent/[0,1]/[0,0]/[1,1]; non-contiguous ids; either sense; unused variables; removed constraints present) -> mps::write_file -> mps::load_file | instance with one nonlinear objective/constraint -> must be refused naming the offender; \
+        "case = linear instance (normalised linear functions, constant-only and absent constraint functions; continuous/integer/binary variables; bounds absent, finite, half-infinite, (-inf,inf), negative, fractional, finite of magnitude 1e20..f64::MAX; binary with bound absent/[0,1]/[0,0]/[1,1]; non-contiguous ids; either sense; unused variables; removed constraints present) -> mps::write_file -> mps::load_file | instance with one nonlinear objective/constraint -> must be refused naming the offender | sweep: dense instances up to 120x100 (thorough 300x200) with full-precision coefficients; \
          oracle = the generated instance itself: polynomials by id, equality kinds, id sets, value domains of the variables that occur with non-zero coefficient; non-trivial = >=1 integer or binary variable and >=1 variable without a finite lower bound; distinct = sha256(instance)"
     }
     fn required_labels(&self) -> Vec<String> {
-        ["bound-absent", "binary-no-bound", "neg-bound", "constant-only-constraint", "maximize", "nonlinear-objective", "nonlinear-constraint", "noncontiguous-ids", "removed-constraint", "half-infinite", "unused-variable", "integer-variable", "unsorted-terms"].iter().map(|s| s.to_string()).collect()
+        ["bound-absent", "binary-no-bound", "neg-bound", "constant-only-constraint", "maximize", "nonlinear-objective", "nonlinear-constraint", "noncontiguous-ids", "removed-constraint", "half-infinite", "unused-variable", "integer-variable", "unsorted-terms", "huge-finite-bound", "sweep=big-dense"].iter().map(|s| s.to_string()).collect()
     }
     fn cases(&self, tier: Tier) -> usize {
         match tier {
@@ -87,9 +89,67 @@ impl Property for C18 {
         ]
     }
 
+    fn sweep_len(&self, tier: Tier) -> usize {
+        match tier {
+            Tier::Quick => 3,
+            Tier::Thorough => BIG.len(),
+        }
+    }
+    fn sweep_description(&self) -> Option<String> {
+        Some("dense linear instances of 12x10, 60x60, 120x100 (thorough: also 200x150, 300x200) variables x constraints with full-precision coefficients (files far larger than any internal buffer of the writer / compressor)".into())
+    }
+    fn sweep_case(&self, _tier: Tier, i: usize, ctx: &mut Ctx) -> PResult {
+        let (nv, nc) = BIG[i];
+        ctx.label("sweep=big-dense");
+        ctx.nontrivial();
+        ctx.fp_dbg(&("big", nv, nc));
+        ctx.sample_with(|| json!({"sweep": "dense linear instance", "variables": nv, "constraints": nc}));
+        let coef = |a: u64, b: u64| -> f64 {
+            use sha2::{Digest, Sha256};
+            let mut h = Sha256::new();
+            h.update(a.to_le_bytes());
+            h.update(b.to_le_bytes());
+            let d = h.finalize();
+            let x = u64::from_le_bytes(d[..8].try_into().unwrap());
+            ((x as f64) / 18446744073709551616.0 - 0.5) * 2000.0
+        };
+        let mut inst = v1::Instance::default();
+        inst.sense = if i % 2 == 1 { SENSE_MAX } else { SENSE_MIN };
+        let ids: Vec<u64> = (0..nv as u64).map(|k| 3 * k + 2).collect();
+        for (k, id) in ids.iter().enumerate() {
+            let mut v = v1::DecisionVariable::default();
+            v.id = *id;
+            v.kind = [KIND_CONTINUOUS, KIND_INTEGER, KIND_BINARY, KIND_CONTINUOUS, KIND_INTEGER][k % 5];
+            v.bound = match (v.kind, k % 7) {
+                (KIND_BINARY, 0 | 1 | 2) => None,
+                (KIND_BINARY, _) => Some(crate::mk::bound(0.0, 1.0)),
+                (_, 0) => None,
+                (_, 1) => Some(crate::mk::bound(-3.25, 7.5)),
+                (_, 2) => Some(crate::mk::bound(0.0, f64::INFINITY)),
+                (_, 3) => Some(crate::mk::bound(f64::NEG_INFINITY, 4.0)),
+                (_, 4) => Some(crate::mk::bound(-1e6, -2.0)),
+                (_, 5) => Some(crate::mk::bound(f64::NEG_INFINITY, f64::INFINITY)),
+                _ => Some(crate::mk::bound(coef(k as u64, 7777), coef(k as u64, 7777) + 10.0)),
+            };
+            inst.decision_variables.push(v);
+        }
+        let row = |r: u64| crate::mk::flin(crate::mk::linear(ids.iter().map(|id| (*id, coef(r, *id))).collect(), coef(r, 999_999)));
+        inst.objective = Some(row(u64::MAX));
+        for j in 0..nc as u64 {
+            let mut c = v1::Constraint::default();
+            c.id = 2 * j + 1;
+            c.equality = if j % 3 == 0 { EQ_ZERO } else { LE_ZERO };
+            c.function = Some(row(j));
+            inst.constraints.push(c);
+        }
+        let used: BTreeSet<u64> = ids.iter().copied().collect();
+        check_roundtrip(&inst, &used, false)
+    }
+
     fn run(&self, t: &mut Tape, ctx: &mut Ctx) -> PResult {
         let regime = if t.coin() { Regime::General } else { Regime::Dyadic };
         let nonlinear = if t.p(40) { 1 + t.choice(2) } else { 0 };
+        let huge = if t.p(40) { 1 + t.choice(3) } else { 0 };
         let mut cfg = InstCfg::new(regime);
         cfg.allow_deps = false;
         cfg.allow_fixed = false;
@@ -114,6 +174,19 @@ impl Property for C18 {
             }
             if unsorted {
                 ctx.label("unsorted-terms");
+            }
+        }
+        // a finite bound of very large magnitude is still a finite bound
+        if huge != 0 {
+            let m = *t.pick(&[1e20, 1e30, 1e35, f64::MAX]);
+            for v in inst.decision_variables.iter_mut().filter(|v| v.kind != KIND_BINARY && gi.used_pool.contains(&v.id)).take(1) {
+                let (lo, hi) = v.bound.as_ref().map(|b| (b.lower, b.upper)).unwrap_or((f64::NEG_INFINITY, f64::INFINITY));
+                v.bound = Some(match huge {
+                    1 => crate::mk::bound(if lo.is_finite() { lo } else { -3.0 }, m),
+                    2 => crate::mk::bound(-m, if hi.is_finite() { hi } else { 5.0 }),
+                    _ => crate::mk::bound(-m, m),
+                });
+                ctx.label("huge-finite-bound");
             }
         }
         // ids of constraints fit into u64 text; ensure sense is valid
@@ -205,15 +278,18 @@ impl Property for C18 {
         ctx.sample_with(|| json!({"instance": describe_inst(&inst), "nonlinear_case": nonlinear}));
         let what = || format!("instance {}", describe_inst(&inst));
 
+        let is_nl_obj = nonlinear == 1;
+        let is_nl_con = nonlinear == 2 && nl_target.is_some();
+        if !(is_nl_obj || is_nl_con) {
+            return check_roundtrip(&inst, &used, true);
+        }
         let dir = std::path::Path::new("/verif/target/tmp");
         let _ = std::fs::create_dir_all(dir);
         let path = dir.join(format!("c18-{}-{}.mps.gz", std::process::id(), COUNTER.fetch_add(1, Ordering::SeqCst)));
         let w = ommx::mps::write_file(&inst, &path);
-        let is_nl_obj = nonlinear == 1;
-        let is_nl_con = nonlinear == 2 && nl_target.is_some();
-        if is_nl_obj || is_nl_con {
+        {
             let _ = std::fs::remove_file(&path);
-            return match w {
+            match w {
                 Ok(()) => fail(if is_nl_obj { "C18/nonlinear-objective-accepted" } else { "C18/nonlinear-constraint-accepted" }, format!("write_file accepted a nonlinear instance: {}", what())),
                 Err(e) => {
                     use ommx::mps::MpsWriteError as E;
@@ -230,8 +306,19 @@ impl Property for C18 {
                         _ => fail("C18/nonlinear-wrong-error-kind", format!("error {e} does not name the offender ({}): {}", if is_nl_obj { "objective" } else { "constraint" }, what())),
                     }
                 }
-            };
+            }
         }
+    }
+}
+
+/// write `inst` as MPS, load it back, compare (`show_text`: include the written file in a failure report)
+fn check_roundtrip(inst: &v1::Instance, used: &BTreeSet<u64>, show_text: bool) -> PResult {
+    {
+        let what = || if show_text { format!("instance {}", describe_inst(inst)) } else { format!("instance with {} variables, {} constraints", inst.decision_variables.len(), inst.constraints.len()) };
+        let dir = std::path::Path::new("/verif/target/tmp");
+        let _ = std::fs::create_dir_all(dir);
+        let path = dir.join(format!("c18-{}-{}.mps.gz", std::process::id(), COUNTER.fetch_add(1, Ordering::SeqCst)));
+        let w = ommx::mps::write_file(inst, &path);
         if let Err(e) = w {
             let _ = std::fs::remove_file(&path);
             return fail("C18/write-err", format!("write_file failed ({e}) for a linear instance: {}", what()));
@@ -242,6 +329,10 @@ impl Property for C18 {
             let mut s = String::new();
             if let Ok(f) = std::fs::File::open(&path) {
                 let _ = flate2::read::GzDecoder::new(f).read_to_string(&mut s);
+            }
+            if !show_text && s.len() > 2000 {
+                s.truncate(2000);
+                s.push_str("\n[... truncated]");
             }
             s
         };
